@@ -24,6 +24,8 @@ CORE2 = {'i2': '7', 'f2': '0.5', 's2': "'c'", 'l2': "[5]", 't2': "(0, 2.0)"}
 EXTRA = {'b': 'True', 'st': '{1, 2}', 'd': "{'k': 1}"}
 OPS = ['+', '-', '*', '/', '//', '%', '**', '<<', '>>', '|', '^', '&', '<', '<=', '>', '>=', '==', '!=', 'in', 'not in']
 ARITH = OPS[:7]
+AUG = OPS[:12]          # operators that have an augmented-assignment form
+THEN = [None, "r.append('x')", "r.append(7)", "r.append([9])"]
 
 
 def _setup():
@@ -36,12 +38,20 @@ def _setup():
     from pedal.core.report import MAIN_REPORT
 
 
-def judge_expr(ctx, variables, expr):
+def judge_expr(ctx, variables, expr, aug=None, then=None):
+    """aug=(a, op, b): the operator applied in its augmented-assignment form (r = a; r op= b).
+    then: a statement executed on the result afterwards (e.g. r.append('x')) -- the operands must keep their types."""
     pre = "\n".join("%s = %s" % kv for kv in variables.items()) + "\n"
-    code = pre + "r = %s\nprint(r)\n" % expr
+    stmt = "r = %s\n" % expr if aug is None else "r = %s\nr %s= %s\n" % aug
+    if aug is not None:
+        expr = "r = %s; r %s= %s" % aug
+    if then:
+        stmt += then + "\n"
+        expr += '; ' + then
+    code = pre + stmt + "print(r)\n"
     env = {}
     try:
-        exec(pre + "r = %s\n" % expr, env)
+        exec(pre + stmt, env)
         real = ('ok', env['r'])
     except TypeError:
         real = ('TypeError', None)
@@ -86,7 +96,21 @@ def judge_expr(ctx, variables, expr):
     ctx.outcome('ok:' + type(real[1]).__name__)
     if type(real[1]).__name__ not in [type(v).__name__ for v in ()]:
         ctx.mark_nontrivial(expr)
-    if ok is not True:
+    # the operands are still what they were: using them in an operator must not retype them
+    for name in variables:
+        if name == 'r' or name not in t.top_level_variables or env[name] is env['r']:
+            continue          # (r = a; r op= b on a list really is the operand itself under CPython)
+        try:
+            okv = is_subtype(get_pedal_type_from_value(env[name]), t.top_level_variables[name].type)
+        except Exception as ex:
+            okv = 'EXC ' + repr(ex)[:60]
+        if okv is not True:
+            ctx.fail({'symptom': 'an operand variable no longer conforms to its inferred type', 'ops': _ops(expr),
+                      'operand_type': type(env[name]).__name__}, expression=expr, operand=name,
+                     inferred=str(t.top_level_variables[name].type)[:40], value=repr(env[name])[:40], conformance=repr(okv))
+    if ok is not True and not then:
+        # (after a follow-up statement only the operands are judged: a list that received a value of another type
+        # has no single element type to conform to)
         ctx.fail({'symptom': 'result value does not conform to the inferred type', 'ops': _ops(expr),
                   'result_type': type(real[1]).__name__, 'inferred': str(ty)[:24]}, expression=expr, shape=_shape(expr, variables),
                  conformance=repr(ok), value=repr(real[1])[:60])
@@ -111,7 +135,8 @@ def make_table(variables):
         op = OPS[ctx.choose(len(OPS), 'op')]
         a = names[ctx.choose(len(names), 'left')]
         b = names[ctx.choose(len(names), 'right')]
-        judge_expr(ctx, variables, "%s %s %s" % (a, op, b))
+        aug = op in AUG and bool(ctx.choose(2, 'augmented-form'))
+        judge_expr(ctx, variables, "%s %s %s" % (a, op, b), aug=(a, op, b) if aug else None)
     return body
 
 
@@ -208,7 +233,17 @@ def body_elements(ctx):
     op = ('+', '*')[ctx.choose(2, 'op')]
     a = names[ctx.choose(len(names), 'left')]
     b = names[ctx.choose(len(names), 'right')]
-    judge_expr(ctx, ELEMS, "%s %s %s" % (a, op, b))
+    aug = bool(ctx.choose(2, 'augmented-form'))
+    then = THEN[ctx.choose(len(THEN), 'then')]
+    if then is not None:
+        # only where the follow-up statement runs under CPython
+        env = {}
+        try:
+            exec("\n".join("%s = %s" % kv for kv in ELEMS.items()) + "\nr = %s %s %s\n%s\n" % (a, op, b, then), env)
+        except Exception:
+            ctx.abstain()
+            return
+    judge_expr(ctx, ELEMS, "%s %s %s" % (a, op, b), aug=(a, op, b) if aug else None, then=then)
 
 
 def bounds(tier):
